@@ -550,8 +550,62 @@ let cmd_summary () =
   List.iter (fun (k, v) -> Printf.printf "FIELD %s %s\n" (ocaml_string_of k) (show_pv v)) (summary ctl st);
   Printf.printf "ERRS %s\n" (String.concat " " (List.map err_name errs))
 
+(* ---------- coqcases: the same computations as `decode` / `bitread` / `frames`, but each answer rendered as a Gallina term inside an
+   `Example ... Proof. vm_compute. reflexivity. Qed.`: coqc then evaluates the SAME function inside Coq (the definitions the theorems are about)
+   and must get the same answer - a per-run check of the extraction and of this driver's plumbing.
+   input lines:  decode <hdr> <type> <hex|->   |   bitread <hex|-> <w1,w2,..|->   |   frames <hex|-> *)
+let g_bytes (l : byte list) = "[" ^ String.concat "; " (List.map (fun b -> Printf.sprintf "x%02x" (int_of_byte b)) l) ^ "]"
+let g_nat i = Printf.sprintf "%d%%nat" i
+let g_n (x : n) = string_of_n x ^ "%N"
+let g_z (x : z) = "(" ^ string_of_z x ^ ")%Z"
+let g_string (s : Model.string) =
+  let o = ocaml_string_of s in
+  String.iter (fun c -> if Char.code c < 32 || Char.code c > 126 then failwith "coqcases: non-printable name") o;
+  "\"" ^ String.concat "\"\"" (String.split_on_char '"' o) ^ "\"%string"
+let rec g_type (t : dtype) = match t with
+  | TUInt w -> Printf.sprintf "(TUInt %s)" (g_nat (int_of_nat w)) | TInt w -> Printf.sprintf "(TInt %s)" (g_nat (int_of_nat w))
+  | TF32 -> "TF32" | TF64 -> "TF64" | TVec n -> Printf.sprintf "(TVec %s)" (g_nat (int_of_nat n))
+  | TString -> "TString" | TBlob -> "TBlob" | TPython -> "TPython" | TMailbox -> "TMailbox"
+  | TArray (e, sz) -> Printf.sprintf "(TArray %s %s)" (g_type e) (match sz with Some k -> "(Some " ^ g_nat (int_of_nat k) ^ ")" | None -> "None")
+  | TDict (fs, an) -> Printf.sprintf "(TDict %s %s)" (g_fields fs) (if an then "true" else "false")
+  | TUser e -> Printf.sprintf "(TUser %s)" (g_type e)
+and g_fields fs = "[" ^ String.concat "; " (List.map (fun (k, t) -> "(" ^ g_string k ^ ", " ^ g_type t ^ ")") fs) ^ "]"
+let rec g_value (v : value) = match v with
+  | VInt z -> "(VInt " ^ g_z z ^ ")" | VF32 b -> "(VF32 " ^ g_bytes b ^ ")" | VF64 b -> "(VF64 " ^ g_bytes b ^ ")" | VVec b -> "(VVec " ^ g_bytes b ^ ")"
+  | VStr b -> "(VStr " ^ g_bytes b ^ ")" | VBytes b -> "(VBytes " ^ g_bytes b ^ ")" | VMail (ip, port) -> "(VMail " ^ g_bytes ip ^ " " ^ g_n port ^ ")"
+  | VList (t, l) -> "(VList " ^ g_type t ^ " [" ^ String.concat "; " (List.map g_value l) ^ "])"
+  | VDict (fs, kvs) -> "(VDict " ^ g_fields fs ^ " [" ^ String.concat "; " (List.map (fun (k, x) -> "(" ^ g_string k ^ ", " ^ g_value x ^ ")") kvs) ^ "])"
+  | VNone -> "VNone"
+let g_err e = "E" ^ (match err_name e with "FUEL" -> "Fuel" | "notimpl" -> "NotImpl" | "os" -> "OS" | s -> String.capitalize_ascii s)
+let cmd_coqcases () =
+  let k = ref 0 in
+  iter_lines (fun l ->
+    incr k;
+    match split_ws l with
+    | ["decode"; hdr; t; hx] ->
+        let bs = bytes_of_string (unhex (if hx = "-" then "" else hx)) in
+        let ty = parse_type t and h = nat_of_int (int_of_string hdr) in
+        let rhs = (match decode h ty bs with Ok (v, rest) -> Printf.sprintf "Ok (%s, %s)" (g_value v) (g_bytes rest) | Err e -> "Err " ^ g_err e) in
+        Printf.printf "Example case_%d : decode %s %s %s = %s. Proof. vm_compute. reflexivity. Qed.\n" !k (g_nat (int_of_nat h)) (g_type ty) (g_bytes bs) rhs
+    | ["bitread"; hx; ws] ->
+        let bs = bytes_of_string (unhex (if hx = "-" then "" else hx)) in
+        let wl = if ws = "-" then [] else List.map (fun w -> nat_of_int (int_of_string w)) (String.split_on_char ',' ws) in
+        let rhs = (match rd_gets wl (rd_init bs) with
+                   | Ok (vs, r) -> Printf.sprintf "Ok ([%s], %s, %s)" (String.concat "; " (List.map g_n vs)) (g_bytes (rd_rest r)) (g_nat (int_of_nat (rd_bytes_read r)))
+                   | Err e -> "Err " ^ g_err e) in
+        Printf.printf "Example case_%d : (match rd_gets [%s] (rd_init %s) with Ok (vs, r) => Ok (vs, rd_rest r, rd_bytes_read r) | Err e => Err e end) = %s. Proof. vm_compute. reflexivity. Qed.\n"
+          !k (String.concat "; " (List.map (fun w -> g_nat (int_of_nat w)) wl)) (g_bytes bs) rhs
+    | ["frames"; hx] ->
+        let bs = bytes_of_string (unhex (if hx = "-" then "" else hx)) in
+        let (ps, t) = frames bs in
+        let tl = (match t with Clean -> "Clean" | HeaderCut -> "HeaderCut" | OutOfFuel -> "OutOfFuel") in
+        Printf.printf "Example case_%d : frames %s = ([%s], %s). Proof. vm_compute. reflexivity. Qed.\n" !k (g_bytes bs)
+          (String.concat "; " (List.map (fun p -> Printf.sprintf "{| pk_type := %s; pk_time := %s; pk_payload := %s |}" (g_n p.pk_type) (g_bytes p.pk_time) (g_bytes p.pk_payload)) ps)) tl
+    | _ -> failwith ("coqcases: bad line " ^ l))
+
 let () =
   match Sys.argv.(1) with
+  | "coqcases" -> cmd_coqcases ()
   | "summary" -> cmd_summary ()
   | "write" -> cmd_write ()
   | "frames" -> cmd_frames ()
